@@ -219,9 +219,10 @@ def check (c):
             bad ('end-lines', 'junction-end-not-J', 'object %d end %d is on a junction of %d ends but printed as %s' % (t, e + 1, len (mem), kind))
             continue
         exp = expected [(t, e)]
-        if abs (val - exp) > 3e-6 * Imax * max (1, len (single [(t, e)])) + 1e-12:
+        # seven digits per printed component, six decimals (1e-6 absolute) for components of 0.1 .. 1
+        if abs (val - exp) > 6e-6 * max (abs (exp), abs (val)) + 1.5e-6 * (max (abs (val.real), abs (val.imag)) >= 0.1) + 1e-12:
             parts = single [(t, e)]
-            if e == 0 and len (parts) >= 2 and any (abs (val - x) <= 3e-6 * Imax for x in parts):
+            if e == 0 and len (parts) >= 2 and any (abs (val - x) <= 6e-6 * max (abs (x), Imax) + 1.5e-6 for x in parts):
                 viol.append (dict ( monitor = 'end-lines', key = 'end1-junction-line-single-pulse'
                                   , msg = 'object %d end 1: J line %r is one of the %d pulse currents through that end, their total is %r'
                                         % (t, val, len (parts), exp)))
@@ -244,7 +245,7 @@ def check (c):
         if not ok:
             continue
         mon ['kcl'] = mon.get ('kcl', 0) + 1
-        if abs (tot) > 3e-6 * Imax * len (mem) + 1e-12:
+        if abs (tot) > (6e-6 * Imax + 1.5e-6 * (Imax >= 0.1)) * len (mem) + 1e-12:
             bad ('kcl', 'kcl-sum', 'junction %s of %d ends: into-junction currents sum to %r (max |I| %.3g)' % (node, len (mem), tot, Imax))
     sizes = sorted (len (v) for v in members.values () if len (v) > 1)
     if c.get ('fam') == 'ring':
